@@ -219,6 +219,9 @@ func c07Property(t *rapid.T, st *Stats) {
 		e.repo(rn).blobs[cd] = cfg
 	}
 	touched := map[string]bool{}
+	// copies: manifests pushed by digest with the exact bytes of a referrers listing -> the subject of that listing
+	// (finding 27: they share the digest, and thereby the index entry and blob, of the stored response)
+	copies := map[string]string{}
 	t.Repeat(e.actions(map[string]func(*rapid.T){
 		"pushBase": func(t *rapid.T) {
 			rn := rapid.SampledFrom(c07Repos).Draw(t, "repo")
@@ -427,6 +430,21 @@ func c07Property(t *rapid.T, st *Stats) {
 				}
 			}
 			e.modelDeleteDigest(rn, d)
+			if sd, ok := copies[rn+" "+d]; ok && len(s.wantSet(rn, sd, "")) > 0 && !mr.refFuzzy[sd] {
+				// the deleted manifest was a copy of the listing of sd: the listing itself must be unaffected
+				delete(copies, rn+" "+d)
+				if avoid("C07/response-copy-deleted") {
+					st.Exclude("C07/response-copy-deleted")
+					mr.refFuzzy[sd] = true
+				} else {
+					g := e.do("GET", "/v2/"+rn+"/referrers/"+sd, nil, nil)
+					var idx mbody
+					_ = json.Unmarshal(g.body, &idx)
+					if len(idx.Manifests) == 0 {
+						s.fail("response-copy-deleted", "after deleting %s (a manifest pushed with the bytes of the referrers listing of %s) the referrers of %s are empty although %d manifests with that subject are present", short(d), short(sd), short(sd), len(s.wantSet(rn, sd, "")))
+					}
+				}
+			}
 			if m.subject != "" {
 				e.class("delete-or-overwrite")
 				e.class("artifact-deleted")
@@ -482,6 +500,47 @@ func c07Property(t *rapid.T, st *Stats) {
 				}
 			}
 			e.class("foreign-page")
+		},
+		"pushResponseAsIndex": func(t *rapid.T) {
+			// a client copies a referrers listing: the body it was served is pushed back as an ordinary index (by tag or
+			// digest). It names the referrers as children and has no subject: nothing about any subject's referrers changes.
+			rn := rapid.SampledFrom(c07Repos).Draw(t, "repo")
+			sd := rapid.SampledFrom(sortedKeys(e.subjects)).Draw(t, "subject")
+			mr := e.repo(rn)
+			if mr.refFuzzy[sd] || len(s.wantSet(rn, sd, "")) == 0 {
+				t.Skip("no listing to copy")
+			}
+			g := e.do("GET", "/v2/"+rn+"/referrers/"+sd, nil, nil)
+			var idx mbody
+			if g.code != 200 || json.Unmarshal(g.body, &idx) != nil || len(idx.Manifests) == 0 {
+				t.Skip("empty listing")
+			}
+			mm := &mman{raw: g.body, mt: mtIndex, isIndex: true}
+			for _, x := range idx.Manifests {
+				if mr.mans[x.Digest] == nil {
+					t.Skip("listing names something the model does not hold (judged by the sweep)")
+				}
+				mm.refs = append(mm.refs, x.Digest)
+				mm.refMT = append(mm.refMT, x.MediaType)
+			}
+			p := manifestPlan{repo: rn, raw: g.body, mm: mm, ct: mtIndex, alg: "sha256", digest: dig("sha256", g.body)}
+			p.ref = p.digest
+			if rapid.Bool().Draw(t, "byTag") {
+				p.tag = rapid.SampledFrom(c07Tags).Draw(t, "tag")
+				p.ref = p.tag
+			}
+			r := e.putManifest(p, nil)
+			e.logf("pushResponseAsIndex %s listing of %s (%d entries) ref=%s -> %d", rn, short(sd), len(idx.Manifests), shortTag(p.ref), r.code)
+			s.bad(r, "PUT of a copied referrers listing")
+			if r.code != 201 {
+				e.abandon("copied listing refused (C04)")
+			}
+			e.acceptManifest(p)
+			e.subjects[p.digest] = true
+			copies[rn+" "+p.digest] = sd
+			e.class("listing-copied-as-index")
+			touched[sd] = true
+			touched[p.digest] = true
 		},
 		"readOdd": func(t *rapid.T) {
 			// unknown repository, malformed digest: 200 with an empty index
